@@ -76,6 +76,50 @@ impl Check for StepCheck {
                     cands.push(Cand { ops });
                     cx.stats.count("echo_candidates", 1);
                 }
+                // counts that are a RELATION to the content rather than a constant: the distance
+                // from the cursor to a stored glyph in its row (either side), to a row with content
+                // (above / below), to the margins, each also +-1
+                {
+                    let (x, y) = (pre.cx.min(c - 1), pre.cy);
+                    let mut ds: Vec<u32> = Vec::new();
+                    if let Some(row) = pre.grid.get(y as usize) {
+                        for k in 0..c {
+                            if row.get(k as usize).map(|cell| cell.text != " ").unwrap_or(false) && k != x {
+                                ds.push(if k > x { k - x } else { x - k });
+                            }
+                        }
+                    }
+                    for r in 0..l {
+                        if r != y && pre.grid.get(r as usize).map(|row| row.iter().any(|cell| cell.text != " ")).unwrap_or(false) {
+                            ds.push(if r > y { r - y } else { y - r });
+                        }
+                    }
+                    if let Some((t, b)) = pre.margins {
+                        for m in [t, b] {
+                            ds.push(if m > y { m - y } else { y - m });
+                        }
+                    }
+                    ds.sort();
+                    ds.dedup();
+                    let n = cands.len();
+                    if !ds.is_empty() && c * l > 30 {
+                        for _ in 0..n.min(6) {
+                            let cand = &cands[rng.usize(n)];
+                            if let [Op::Api(call)] = &cand.ops[..] {
+                                let d = *rng.pick(&ds);
+                                let d = match rng.below(4) {
+                                    0 => d + 1,
+                                    1 => d.saturating_sub(1),
+                                    _ => d,
+                                };
+                                if let Some(c2) = call.with_count(d) {
+                                    cands.extend(Cand::both(c2));
+                                    cx.stats.count("content_relative_candidates", 1);
+                                }
+                            }
+                        }
+                    }
+                }
                 // parser-path candidates again with every parameter zero-padded (1, 63, 64, 65 or
                 // 300 zeros): the call delivered must be the same (clause dispatch)
                 let n = cands.len();
